@@ -7,6 +7,7 @@ import (
 	"math/bits"
 	"testing"
 	"verif/cs"
+	"verif/rec"
 
 	"verif/corp"
 	"verif/eng"
@@ -202,7 +203,7 @@ func TestC14(t *testing.T) {
 	s := newSuite("C14")
 	r := s.r
 	defer r.Flush()
-	r.Rule("(a) assertLeadingZeros through its export hook: response in {2^(64-b)-1, 2^(64-b), 2^(64-b)+1, p-1, 0, random of every bit length} x difficulty b in 1..63 (native, plain, forced-bits flavours) and b in {16,32,48} under the padded commit flavour; accept <=> response < 2^(64-b); the same check compiled with gnark's R1CS and SCS builders under the commit range checker inside circuits with 0..36000 further Goldilocks range checks (circuits the chip refuses are trivial cases; circuits that compile must be exact at 2^(64-b)-1, 2^(64-b+j), 2^(64-b+j)+1).  (b) exported VerifyFriProof on one-round prefixes of real proofs with all challenges supplied by the reference and only the PoW response replaced.  (c) PoW witness substituted into real transcripts: the response is recomputed in circuit (GetChallenges) and checked at a drawn difficulty; witnesses are drawn at random and ground natively until the reference response has the required zeros, so both verdicts occur; accept <=> reference response of the supplied witness has >= b leading zeros.  Non-trivial = every case; distinct = (response|witness, difficulty, flavour).")
+	r.Rule("(a) assertLeadingZeros through its export hook: response in {2^(64-b)-1, 2^(64-b), 2^(64-b)+1, p-1, 0, random of every bit length} x difficulty b in 1..63 (native, plain, forced-bits flavours) and b in {16,32,48} under the padded commit flavour; accept <=> response < 2^(64-b); the same check compiled with gnark's R1CS and SCS builders under the commit range checker inside circuits with 0..57000 further Goldilocks range checks (circuits the chip refuses are trivial cases; circuits that compile must be exact at 2^(64-b)-1, 2^(64-b), 2^(64-b)+1, 2^(64-b+j); one size per geometric bucket of ratio 1.2 (thorough 1.03) and builder).  (b) exported VerifyFriProof on one-round prefixes of real proofs with all challenges supplied by the reference and only the PoW response replaced.  (c) PoW witness substituted into real transcripts: the response is recomputed in circuit (GetChallenges) and checked at a drawn difficulty; witnesses are drawn at random and ground natively until the reference response has the required zeros, so both verdicts occur; accept <=> reference response of the supplied witness has >= b leading zeros.  Non-trivial = every case; distinct = (response|witness, difficulty, flavour).")
 	r.Assume("reference transcript (C11)")
 	s.on("lz", func(b json.RawMessage) caseResult { return c14LzRun(unmarshal[c14Lz](b)) })
 	s.on("fri", func(b json.RawMessage) caseResult { return c14FriRun(unmarshal[c14Fri](b)) })
@@ -250,31 +251,39 @@ func TestC14(t *testing.T) {
 		}
 		s.exec(rt, "lz", a, class)
 	})
-	rapidCheck(t, "pop", tierN(40, 1200), func(rt *rapid.T) {
-		a := c14Pop{Backend: rapid.SampledFrom([]string{"r1cs", "scs", "scs"}).Draw(rt, "backend"), Bits: uint64(rapid.SampledFrom([]int{16, 32, 48}).Draw(rt, "b"))}
-		switch rapid.IntRange(0, 9).Draw(rt, "size") {
-		case 0, 1:
-			a.PadN = rapid.IntRange(0, 12).Draw(rt, "pad")
-		case 2, 3, 4, 5:
-			a.PadN = rapid.IntRange(13, 2000).Draw(rt, "pad")
-		case 6, 7:
-			a.PadN = rapid.IntRange(2001, 20000).Draw(rt, "pad")
-		default:
-			a.PadN = rapid.IntRange(31800, 36000).Draw(rt, "pad")
+	// stratified over the circuit size: one size per geometric bucket (position inside the bucket derived
+	// from VERIF_SEED) x builder, so that every window of sizes wider than the bucket ratio is hit in every run
+	popRatio := 1.2
+	if rec_thorough() {
+		popRatio = 1.03
+	}
+	popItem := 0
+	for lo := 1.0; lo < 48000; lo *= popRatio {
+		hi := lo * popRatio
+		if int(hi) <= int(lo) {
+			continue
 		}
-		lim := pow2(uint(64 - a.Bits))
-		shift := uint(rapid.IntRange(0, 9).Draw(rt, "shift"))
-		for _, resp := range []*big.Int{new(big.Int).Sub(lim, big.NewInt(1)), new(big.Int).Lsh(lim, shift), new(big.Int).Add(new(big.Int).Lsh(lim, shift), big.NewInt(1))} {
-			if resp.Cmp(bigP) >= 0 {
+		for _, backend := range []string{"r1cs", "scs"} {
+			popItem++
+			if !mine(popItem) {
 				continue
 			}
-			a.Response = resp.String()
-			res := s.exec(rt, "pop", a, "leadingzeros/compiled-commit/"+a.Backend)
-			if res.Trivial {
-				break // circuit refused by the chip: nothing to solve
+			h := rec.Hash(fmt.Sprint(rec.Seed(), "c14pop", popItem))
+			a := c14Pop{Backend: backend, Bits: []uint64{16, 32, 48}[h%3], PadN: int(lo) - 1 + int((h>>8)%uint64(int(hi)-int(lo)))}
+			lim := pow2(uint(64 - a.Bits))
+			shift := uint(1 + (h>>40)%9)
+			for _, resp := range []*big.Int{new(big.Int).Sub(lim, big.NewInt(1)), lim, new(big.Int).Add(lim, big.NewInt(1)), new(big.Int).Lsh(lim, shift)} {
+				if resp.Cmp(bigP) >= 0 {
+					continue
+				}
+				a.Response = resp.String()
+				res := s.exec(t, "pop", a, "leadingzeros/compiled-commit/"+a.Backend)
+				if res.Trivial {
+					break // circuit refused by the chip: nothing to solve
+				}
 			}
 		}
-	})
+	}
 	rapidCheck(t, "fri", tierN(40, 1500), func(rt *rapid.T) {
 		b := rapid.SampledFrom(corp.Names).Draw(rt, "base")
 		resp := genResp(rt, 16)
